@@ -114,8 +114,14 @@ def judge(seq, emit, tag):
                 V.append(('C18.malformed-line', 'file %s holds a line of unknown shape: %r' % (fname, line[:120])))
                 continue
             fac, sev, text = m.groups()
-            if text.startswith(tag + '-'):
-                parts = text.split('-')
+            mtag = tag
+            if '\n' in tag:
+                # a message with a line break inside: however the writer neutralises it (a blank, an escape), the text stays ONE attributed line
+                a, z = tag.split('\n', 1)
+                mm = re.match(re.escape(a) + r'.{1,4}?' + re.escape(z) + '-', text)
+                mtag = text[:mm.end() - 1] if mm else tag
+            if text.startswith(mtag + '-'):
+                parts = text[len(mtag) - len(mtag.split('-')[0]):].split('-') if False else [mtag] + text[len(mtag) + 1:].split('-')
                 if len(parts) == 4 and set(parts[3]) <= {'x'}:
                     parts = parts[:3]           # filler of a long message (possibly cut by the 1024-byte message buffer)
                 if len(parts) != 3 or parts[1] != fac or parts[2] != sev:
@@ -141,6 +147,8 @@ def _task(srv, item):
     tag = 'T%d' % cid
     if cid % 97 == 5:
         tag += '+%d' % (900, 980, 990, 1000, 1010, 1023, 1100)[cid // 97 % 7]     # a sample of the sections gets long messages
+    elif cid % 97 == 11:
+        tag += '\n[00:00:00 01/01/2030] (f2:fatal) forged'       # ... and a sample gets messages with a line break and a counterfeit header inside
     h, res = srv.expand(hist, [('M', tag)], hist_may_die=True)
     if h.get('died'):
         # every section of the universe is a valid file: the library dying while loading them is not a harness matter
